@@ -148,5 +148,44 @@ func init() {
 			return PtrV{C: c}
 		}
 		_ = smt.Unknown
+		// sync.Cond: a generation counter per condition variable; Wait releases L, parks until the
+		// generation changes (Signal wakes every waiter - a permitted spurious wake-up for the
+		// others), and re-acquires L.
+		condKey := func(ex *Exec, a []Value) string {
+			ex.noGuard("condition variable")
+			return "cond:" + itoa(ex.cellOf(a[0]).id)
+		}
+		callL := func(ex *Exec, recv Value, method string) {
+			c := ex.cellOf(recv)
+			st := c.T.Underlying().(*types.Struct)
+			for i := 0; i < st.NumFields(); i++ {
+				if st.Field(i).Name() == "L" {
+					l, _ := ex.load(ex.kid(c, i)).(IfaceV)
+					if l.T == nil {
+						panic(ex.rtPanic("sync.Cond with nil L"))
+					}
+					m := ex.lookupMethodByName(l.T, method)
+					ex.call(ex.funcValue(m), []Value{l.V})
+					return
+				}
+			}
+			panic(ex.unsupported("sync.Cond without field L"))
+		}
+		t["(*sync.Cond).Wait"] = func(ex *Exec, fn *ssa.Function, a []Value) Value {
+			k := condKey(ex, a)
+			gen, _ := ex.ghost[k].(int)
+			callL(ex, a[0], "Unlock")
+			ex.block(func() bool { g, _ := ex.ghost[k].(int); return g != gen }, "sync.Cond.Wait")
+			callL(ex, a[0], "Lock")
+			return nil
+		}
+		wake := func(ex *Exec, fn *ssa.Function, a []Value) Value {
+			k := condKey(ex, a)
+			g, _ := ex.ghost[k].(int)
+			ex.ghost[k] = g + 1
+			return nil
+		}
+		t["(*sync.Cond).Broadcast"] = wake
+		t["(*sync.Cond).Signal"] = wake
 	})
 }
